@@ -100,7 +100,7 @@ PROPS["C04"] = {
     "props_files": ["BurrowVerif/Props/C04.lean"],
     "anchors": ["core/internal/evaluator/caching.go", "core/protocol/evaluator.go"],
     "streams": [dict(_STORAGE_STREAM, keys={"gs", "complete", "count", "total", "maxlag", "parts"}),
-                {"name": "evalcache", "keys": None, "spec_tags": [], "trivial": r"^(ok.*|rc=\S+ rg=\S+ gs=0 .*)$", "hist_keys": ["path"],
+                {"name": "evalcache", "retry_transient": True, "keys": None, "spec_tags": [], "trivial": r"^(ok.*|rc=\S+ rg=\S+ gs=0 .*)$", "hist_keys": ["path"],
                  "scale": {"quick": 1, "thorough": 6}, "seeds": {"quick": 1, "thorough": 2}}],
     "rule": _STORAGE_RULE + " The 'status' op builds a fresh CachingEvaluator (empty cache) on the current real storage and requests the group status in the full or the problems-only view with minimum-complete in {0, 0.3, 0.5, 1} and allowed-lag in {0, 1, 5, 100}; groups mix partitions without commits, owner-only partitions, partial and full windows and lag ties.",
     "trusted": [
@@ -110,7 +110,7 @@ PROPS["C04"] = {
     "assumptions": PROPS["C01"]["assumptions"],
 }
 
-_NOTIFIER_STREAM = {"name": "notifier", "trivial": r"^(ok|notes=-)$", "hist_keys": [],
+_NOTIFIER_STREAM = {"name": "notifier", "retry_transient": True, "trivial": r"^(ok|notes=-)$", "hist_keys": [],
                     "scale": {"quick": 2, "thorough": 30}, "seeds": {"quick": 1, "thorough": 4}}
 _NOTIFIER_RULE = ("stream notifier: the real checkAndSendResponseToModules + notifyModule with 1-3 recording modules (threshold 1-4, send-interval 0/1/5/60 s, "
                   "send-once and send-close in all combinations, allow/deny regexps) on status sequences of 8-35 evaluations over 1-3 groups in two clusters "
@@ -143,7 +143,7 @@ PROPS["C05"] = {
     "lean_modules": ["BurrowVerif.Props.C05"],
     "props_files": ["BurrowVerif/Props/C05.lean"],
     "anchors": ["core/internal/evaluator/caching.go", "core/internal/evaluator/coordinator.go"],
-    "streams": [{"name": "evalcache", "keys": None, "trivial": r"^(ok.*|rc=\S+ rg=\S+ gs=0 .*)$", "hist_keys": ["path"],
+    "streams": [{"name": "evalcache", "retry_transient": True, "keys": None, "trivial": r"^(ok.*|rc=\S+ rg=\S+ gs=0 .*)$", "hist_keys": ["path"],
                  "scale": {"quick": 1, "thorough": 12}, "seeds": {"quick": 1, "thorough": 3}}],
     "rule": ("stream evalcache: status requests through a persistent real CachingEvaluator (its goswarm cache, expire-cache 0/5/10 s) wired to the real storage; 3 clusters and 5 "
              "group names chosen to collide under a naive key (\"a b\"+\"c\" vs \"a\"+\"b c\", empty names), existing / unknown / expired / deleted groups, both views; storage is "
@@ -210,8 +210,8 @@ PROPS["C10"] = {
     "streams": [dict(_STORAGE_STREAM, keys={"list", "win", "own"}),
                 dict(_DECODE_STREAM, keys={"reqs"}),
                 dict(_NOTIFIER_STREAM, keys={"notes"}),
-                {"name": "zkreader", "keys": None, "trivial": r"^(ok|fw=-)$", "hist_keys": [],
-                 "scale": {"quick": 1, "thorough": 8}, "seeds": {"quick": 1, "thorough": 2}}],
+                {"name": "zkreader", "retry_transient": True, "keys": None, "trivial": r"^(ok|fw=-)$", "hist_keys": [],
+                 "scale": {"quick": 1, "thorough": 4}, "seeds": {"quick": 1, "thorough": 1}}],
     "rule": ("four streams, each with allow/deny regexp pairs (none, either, both, overlapping): " + _STORAGE_RULE + " | " + _DECODE_RULE + " | " + _NOTIFIER_RULE +
              " | stream zkreader: the REAL Zookeeper offsets reader (KafkaZkClient through its real Configure and Start, every watch goroutine) on an in-memory Zookeeper tree with real watch "
              "semantics (one-shot child/data/exists watches, all invalidated on session expiry); groups accepted and rejected by the lists, new groups/topics/partitions and new commits after Start, "
@@ -257,7 +257,7 @@ _HTTP_RULE = ("stream http: the real httpserver router (real Configure, in-proce
               "every /v3 route with parameters from {existing, unknown, case variants, dotted viper paths, spaces, unicode, %2F, %00, dot segments} plus trailing slashes, doubled slashes, upper-cased "
               "prefixes, extra segments, other methods; each case ends with a scrape after the cache lifetime and a read of everything. Responses are decoded with the harness's own structs for the "
               "documented JSON (not Burrow's types) and compared field by field with the model; Prometheus text is parsed into series. Non-trivial = a 200 answer with a payload or a non-empty scrape.")
-_HTTP_STREAM = {"name": "http", "trivial": r"^(ok|code=(404|tsr|405|301|307).*|code=200 series=-)$", "hist_keys": ["code", "kind"],
+_HTTP_STREAM = {"name": "http", "retry_transient": True, "trivial": r"^(ok|code=(404|tsr|405|301|307).*|code=200 series=-)$", "hist_keys": ["code", "kind"],
                 "scale": {"quick": 1, "thorough": 10}, "seeds": {"quick": 1, "thorough": 3}}
 PROPS["C16"] = {
     "lean_modules": ["BurrowVerif.Props.C16"],
@@ -293,7 +293,7 @@ PROPS["C18"] = {
     "lean_modules": ["BurrowVerif.Props.C18"],
     "props_files": ["BurrowVerif/Props/C18.lean"],
     "anchors": ["core/internal/httpserver/config.go", "core/internal/httpserver/kafka.go", "core/internal/httpserver/structs.go"],
-    "streams": [{"name": "confhttp", "keys": None, "spec_tags": ["D20"], "trivial": r"^(ok|code=404.*)$", "hist_keys": ["code", "kind"],
+    "streams": [{"name": "confhttp", "retry_transient": True, "keys": None, "spec_tags": ["D20"], "trivial": r"^(ok|code=404.*)$", "hist_keys": ["code", "kind"],
                  "scale": {"quick": 2, "thorough": 20}, "seeds": {"quick": 1, "thorough": 3}},
                 dict(_HTTP_STREAM, keys={"code", "ct", "err", "hdr", "kind", "key", "mod", "list", "coord", "leak"}, spec_tags=[])],
     "rule": ("stream confhttp: generated configurations (0-2 SASL profiles with passwords, 0-1 TLS profiles, 1-3 client profiles referring to them, 1-2 clusters, 0-2 consumers of both "
@@ -365,7 +365,7 @@ PROPS["C15"] = {
     "lean_modules": ["BurrowVerif.Props.C15"],
     "props_files": ["BurrowVerif/Props/C15.lean"],
     "anchors": ["core/internal/notifier/coordinator.go", "core/internal/zookeeper/coordinator.go", "core/internal/helpers/zookeeper.go"],
-    "streams": [{"name": "zkloop", "keys": None, "spec_tags": ["D12"], "trivial": r"^$", "hist_keys": ["gap", "locks", "unlocks"],
+    "streams": [{"name": "zkloop", "retry_transient": True, "keys": None, "spec_tags": ["D12"], "trivial": r"^$", "hist_keys": ["gap", "locks", "unlocks"],
                  "scale": {"quick": 1, "thorough": 6}, "seeds": {"quick": 1, "thorough": 3}}],
     "rule": ("stream zkloop: the REAL manageEvalLoop and sendEvaluatorRequests (hook: started exactly as Start does) with the REAL zookeeper coordinator's session-event loop, against a scripted fake "
              "Zookeeper client and lock, in real time (scenarios of 1-4 s, run 16 at a time): 1-3 cycles of 'Lock() fails 0-2 times, succeeds, session expires 200-1250 ms later (StateExpired event), "
